@@ -84,6 +84,37 @@ impl<'de, T: Deserialize<'de>> Deserialize<'de> for UnkSeq<T> {
     fn deserialize<D: serde::Deserializer<'de>>(d: D) -> Result<Self, D::Error> { Vec::<T>::deserialize(d).map(UnkSeq) }
 }
 
+/// `Serializer::collect_seq` over an iterator whose size hint is not tight (`filter_map`: lower bound 0, upper bound = the slots):
+/// every other slot is empty, so fewer items follow than the upper bound says
+#[derive(Debug, PartialEq)]
+pub struct CollSeq<T>(pub Vec<Option<T>>);
+
+impl<T: Serialize> Serialize for CollSeq<T> {
+    fn serialize<S: serde::Serializer>(&self, s: S) -> Result<S::Ok, S::Error> { s.collect_seq(self.0.iter().filter_map(|x| x.as_ref())) }
+}
+impl<'de, T: Deserialize<'de>> Deserialize<'de> for CollSeq<T> {
+    fn deserialize<D: serde::Deserializer<'de>>(d: D) -> Result<Self, D::Error> {
+        // (an empty slot even when there are no elements: the hint of an empty iterator would be tight)
+        Vec::<T>::deserialize(d).map(|v| CollSeq(std::iter::once(None).chain(v.into_iter().flat_map(|x| [Some(x), None])).collect()))
+    }
+}
+
+/// `Serializer::collect_map` over a filtered iterator (entries with an odd marker are not written)
+#[derive(Debug, PartialEq)]
+pub struct CollMap<K, V>(pub Vec<(K, V, bool)>);
+
+impl<K: Serialize, V: Serialize> Serialize for CollMap<K, V> {
+    fn serialize<S: serde::Serializer>(&self, s: S) -> Result<S::Ok, S::Error> {
+        s.collect_map(self.0.iter().filter(|e| e.2).map(|e| (&e.0, &e.1)))
+    }
+}
+impl<'de, K: Deserialize<'de> + Ord + Clone + Default, V: Deserialize<'de> + Clone + Default> Deserialize<'de> for CollMap<K, V> {
+    fn deserialize<D: serde::Deserializer<'de>>(d: D) -> Result<Self, D::Error> {
+        BTreeMap::<K, V>::deserialize(d).map(|m| CollMap(std::iter::once((K::default(), V::default(), false))
+            .chain(m.into_iter().flat_map(|(k, v)| [(k.clone(), v.clone(), true), (k, v, false)])).collect()))
+    }
+}
+
 /// map of unknown length: `serialize_map(None)`
 #[derive(Debug, PartialEq)]
 pub struct UnkMap<K, V>(pub BTreeMap<K, V>);
